@@ -3,7 +3,9 @@
 # applying it to /repo and undoing it straight afterwards. Results -> "$VERIF"/seeded/RESULTS.tsv
 set -u
 TIER=quick
+TARGET_ONLY=0
 if [ "${1:-}" = "-t" ]; then TIER=$2; shift 2; fi
+if [ "${1:-}" = "-p" ]; then TARGET_ONLY=1; shift; fi   # only the property the change was written against
 VERIF=$(cd "$(dirname "$0")/.." && pwd)
 REPO=${SWEEP_REPO:-/repo}
 cd "$VERIF"
@@ -14,8 +16,10 @@ out="$VERIF"/seeded/RESULTS.tsv
 for id in "${ids[@]}"; do
   p="$VERIF"/seeded/$id/patch.diff
   if ! git -C "$REPO" apply "$p"; then echo "$id: patch does not apply"; continue; fi
-  row="$id\t$TIER"
+  row="$id\t$TIER${VERIF_SEED:+/seed$VERIF_SEED}"
+  target=$(echo "$id" | sed 's/^S-\(C[0-9]*\)-.*/\1/')
   for prop in C02 C04 C05 C13 C14 C17; do
+    if [ $TARGET_ONLY -eq 1 ] && [ "$prop" != "$target" ]; then row="$row\t."; continue; fi
     o=$(./check $prop $TIER 2>&1); rc=$?
     if [ $rc -eq 1 ]; then
       cls=$(echo "$o" | sed -n 's/^violation detail: .* class=\([^ ]*\) run=\([0-9]*\) ops=\([0-9]*\).*/\1@\2#\3/p' | head -1)
@@ -26,7 +30,7 @@ for id in "${ids[@]}"; do
     fi
   done
   git -C "$REPO" checkout -- .
-  awk -F'\t' -v n="$id" -v t="$TIER" '!($1==n && $2==t)' "$out" > "$out.tmp"; mv "$out.tmp" "$out"
+  awk -F'\t' -v n="$id" -v t="$TIER${VERIF_SEED:+/seed$VERIF_SEED}" '!($1==n && $2==t)' "$out" > "$out.tmp"; mv "$out.tmp" "$out"
   printf "$row\n" | tee -a "$out"
 done
 rm -f "$VERIF"/replays/*.json
